@@ -95,7 +95,9 @@ func c5kindCoq(kind string) string {
 	return map[string]string{"int8": "I8", "int16": "I16", "int32": "I32", "int64": "I64", "uint8": "U8", "uint16": "U16", "uint32": "U32", "uint64": "U64"}[kind]
 }
 
-func c5isInt(base string) bool { return strings.HasPrefix(base, "int") || strings.HasPrefix(base, "uint") }
+func c5isInt(base string) bool {
+	return strings.HasPrefix(base, "int") || strings.HasPrefix(base, "uint")
+}
 
 // ---- printing ------------------------------------------------------------------------------
 
